@@ -86,7 +86,7 @@ def bounded_roundtrip(tier, seed):
     pool = signature_pool(tier)
     rnd.shuffle(pool)
     n = 0
-    take = pool[:6000 if tier == 'thorough' else 1500]
+    take = pool[:40000 if tier == 'thorough' else 1500]
     # fixed hard cases first: empty containers of 8-aligned elements, nested arrays, variants in both byte orders
     special = [('a{sv}u', [{}, 42]), ('axs', [[], 'x']), ('ya(ii)y', [1, [], 2]), ('aai', [[[1, 2], [3]]]), ('aaii', [[[1], []], 7]),
                ('v', [W.Variant('i', 0x01020304)]), ('v', [W.Variant('a{sv}', {'k': W.Variant('s', 'v')})]), ('uv', [7, W.Variant('t', 2**63)]),
@@ -258,7 +258,7 @@ def bounded_plain_roundtrip(tier, seed):
     rnd = random.Random(seed * 7919 + 1)
     pool = signature_pool(tier)
     rnd.shuffle(pool)
-    take = pool[:5000 if tier == 'thorough' else 1200]
+    take = pool[:40000 if tier == 'thorough' else 1200]
     n = 0
     special = [('a{sv}i', [{}, 42]), ('axs', [[], 'after']), ('a(ii)u', [[], 7]), ('ady', [[], 9]), ('(a{ss}s)', [[{}, 'tail']]),
                ('aax', [[[], [1]]]), ('v', [W.Variant('ax', [])]), ('yv', [3, W.Variant('(yx)', [1, 2])]), ('a{sv}', [{'a': W.Variant('d', float('-inf'))}]),
